@@ -24,7 +24,7 @@ func (r *runner) sig(c *tcase, et *etype, what string) vh.M {
 		mode = "fault"
 	}
 	return vh.M{"engine": "serial", "mode": mode, "kind": c.Obj.K, "cls": c.Obj.Cls, "storage": c.Obj.St,
-		"format": c.Fmt, "view": c.Obj.viewWord(), "fault": ft, "tclass": et.class(), "what": what, "layout": layoutOf(c)}
+		"format": c.Fmt, "view": c.Obj.viewWord(), "fault": ft, "tclass": et.class(), "what": what, "layout": layoutOf(c), "receiver": rcvOf(c)}
 }
 
 func (r *runner) report(c *tcase, raw json.RawMessage, et *etype, what, msg string, doc []byte, extra vh.M) {
@@ -102,8 +102,19 @@ func encode(x interface{}, format, path string) (b []byte, err error, panicMsg s
 
 // decode into a fresh object of the type of src
 func decode(et *etype, src interface{}, format string, b []byte, path string, onDisk bool) (x interface{}, err error, panicMsg string) {
+	return decodeInto(et, src, nil, nil, format, b, path, onDisk)
+}
+
+// decodeInto reads the document into a fresh object (rc == nil or fresh) or into the used receiver the case describes
+func decodeInto(et *etype, src interface{}, o *absObj, rc *rcvSpec, format string, b []byte, path string, onDisk bool) (x interface{}, err error, panicMsg string) {
 	panicMsg = vh.Try(func() {
 		ptr, get := fresh(et, src)
+		if rc != nil && rc.used() {
+			var e error
+			if ptr, get, e = usedReceiver(et, o, rc, src); e != nil {
+				panic("cannot build the receiver: " + e.Error())
+			}
+		}
 		if format == "json" {
 			err = json.Unmarshal(b, ptr)
 		} else {
@@ -199,7 +210,7 @@ func (r *runner) runInst(ci, ii int, c *tcase, raw json.RawMessage, et *etype) {
 	onDisk := roundtrip && (c.Layout == "" || c.Layout == "canonical")
 	// ---- decode
 	r.jr.at(ci, ii, "decode")
-	dec, err, pm := decode(et, src, c.Fmt, mut, path, onDisk)
+	dec, err, pm := decodeInto(et, src, &c.Obj, &c.Rcv, c.Fmt, mut, path, onDisk)
 	r.jr.at(ci, ii, "judge")
 	if roundtrip {
 		r.count("roundtrips")
@@ -338,4 +349,11 @@ func applyLayout(b []byte, layout string) []byte {
 		s = strings.Replace(s, "\n", " \t\n", -1)
 	}
 	return []byte(s)
+}
+
+func rcvOf(c *tcase) string {
+	if c.Rcv.Pre == "" {
+		return "fresh"
+	}
+	return c.Rcv.Pre
 }
